@@ -946,6 +946,7 @@ type replicateChannelHandler struct {
 	recordLock        deadlock.RWMutex
 	collectionRecords map[int64]*model.TargetCollectionInfo   // key is suorce collection id
 	collectionNames   map[string]*model.HandlerCollectionInfo // key is collection name, value is the source brief collection info
+	collectionPChans  map[int64]string                        // key is the source collection id (names repeat across databases), value is its source pchannel
 	closeStreamFuncs  map[int64]io.Closer
 
 	forwardPackChan  chan *api.ReplicateMsg
@@ -993,6 +994,7 @@ func (r *replicateChannelHandler) AddCollection(taskID string, sourceInfo *model
 		CollectionID: collectionID,
 		PChannel:     sourceInfo.PChannel,
 	}
+	r.collectionPChans[collectionID] = sourceInfo.PChannel
 	r.closeStreamFuncs[collectionID] = closeStreamFunc
 	go func() {
 		log.Info("start to handle the msg pack", zap.String("channel_name", sourceInfo.VChannel))
@@ -1078,6 +1080,7 @@ func (r *replicateChannelHandler) RemoveCollection(collectionID int64) {
 		return
 	}
 	delete(r.collectionRecords, collectionID)
+	delete(r.collectionPChans, collectionID)
 	if collectionRecord != nil {
 		delete(r.collectionNames, collectionRecord.CollectionName)
 	}
@@ -1123,7 +1126,7 @@ func (r *replicateChannelHandler) AddPartitionInfo(taskID string, collectionInfo
 		return nil
 	}
 	targetInfo.PartitionBarrierChan[partitionID] = model.NewOnceWriteChan(barrierChan)
-	sourcePChannel := r.collectionNames[collectionName].PChannel
+	sourcePChannel := r.collectionPChans[collectionID]
 	partitionLog.Info("add partition info done")
 	r.recordLock.Unlock()
 
@@ -2032,6 +2035,7 @@ func initReplicateChannelHandler(ctx context.Context,
 		streamCreator:      streamCreator,
 		collectionRecords:  make(map[int64]*model.TargetCollectionInfo),
 		collectionNames:    make(map[string]*model.HandlerCollectionInfo),
+		collectionPChans:   make(map[int64]string),
 		closeStreamFuncs:   make(map[int64]io.Closer),
 		apiEventChan:       apiEventChan,
 		forwardPackChan:    make(chan *api.ReplicateMsg, opts.MessageBufferSize),
